@@ -71,6 +71,15 @@ def clone_env(env):
 
 
 # ------------------------------------------------------------------ associate blocks
+def _plain_leaf(g, env, t):
+    # no derived-type components: with deferred (not enriched) types the frontend's shape derivation of
+    # 'a%x + b%y' raises 'Non-matching dimensions' (frontend limitation outside C17/C18)
+    sc = [n for n in env.scalars(t) if not env.vars[n].get('path') and not env.vars[n].get('modvar')]
+    if sc and g.chance(75):
+        return B.designator_for(env, g.pick(sc))
+    return ['i', g.i(1, 9)] if t == 'int' else ['r', g.pick(B.DYADIC)]
+
+
 def gen_assoc(g, env, feats, depth=0, outer_names=()):
     """['assoc', pairs, body] over scalar components, elements, whole arrays and expressions"""
     child = clone_env(env)
@@ -110,14 +119,23 @@ def gen_assoc(g, env, feats, depth=0, outer_names=()):
             ent = {'type': v['type'], 'dims': None, 'ro': v.get('ro', False)}
             feats.add('assoc:component' if v.get('path') else 'assoc:scalar')
         elif k == 'expr':
+            # operands are plain leaves: the frontend cannot derive the shape of selectors that contain
+            # function references (UnsupportedExpressionError in ExpressionDimensionsMapper) - a parse
+            # limitation outside C17/C18
             t = g.pick(['int', 'real'])
-            sel = ['b', '+', B.expr_of(g, env, t, 1), B.expr_of(g, env, t, 1)]
+            gl = B.G(g.draw, dict(g.p, intrinsics=False, functions=False))
+            sel = ['b', g.pick(['+', '*']), _plain_leaf(gl, env, t), _plain_leaf(gl, env, t)]   # '-' raises too
             ent = {'type': t, 'dims': None, 'ro': True}
             feats.add('assoc:expression')
         elif k == 'elem':
             n = g.pick(arrs)
             v = env.vars[n]
-            sel = B.element(g, env, n, 0)
+            base = B.designator_for(env, n)
+            parts = [list(x) for x in base[1]]
+            # non-negative literal subscripts (negative literals / '-' in selector subscripts make the
+            # frontend's shape derivation raise; outside C17/C18)
+            parts[-1][1] = [lit(g.i(max(B.dim_range(d)[0], 0), B.dim_range(d)[1])) for d in v['dims']]
+            sel = ['d', parts]
             ent = {'type': v['type'], 'dims': None, 'ro': v.get('ro', False)}
             feats.add('assoc:element')
         elif k == 'array':
@@ -350,6 +368,8 @@ def projects(draw, thorough=False):
     }
     if whole:
         menv.vars['garr'] = {'type': 'int', 'dims': [[1, KP]]}
+    for v in menv.vars.values():
+        v['modvar'] = True      # imported / module-level: deferred type unless enriched
     menv.funcs = list(t_funcs)
     menv.subs = list(t_subs)
     own_type = g.chance(70)
@@ -396,7 +416,7 @@ def projects(draw, thorough=False):
     free_own_file = free and g.chance(40)
     if free:
         denv = B.Env()
-        denv.vars = {'mv': {'type': 'int', 'dims': None}}
+        denv.vars = {'mv': {'type': 'int', 'dims': None, 'modvar': True}}
         duses = [{'module': 'kmod', 'only': [['kernel', None], ['mv', None]] + ([['tloc', None]] if own_type and g.chance(50) else [])}]
         if any(o.startswith('ob') for o in ksig.get('objs', [])) or g.chance(50):
             duses.append({'module': 'tmod', 'only': [['tin', None], ['tout', None], ['kp', None]]})
@@ -461,4 +481,5 @@ def projects(draw, thorough=False):
     target = g.pick(by_kind[kind])
     mode = g.pick(['plain', 'defs', 'defs', 'enrich', 'enrich'])
     layout = B.gen_layout(g, 'full')
+    layout['dcolon'] = True     # fparser rejects 'type(t) &\n ) x' style declarations without '::' split by a continuation
     return {'files': files, 'layout': layout, 'mode': mode, 'target': target, 'feats': sorted(feats)}
